@@ -181,6 +181,9 @@ class Kinds:
         """the ROW/COL/ENTRY/ACC side of a liveness predicate term, else None"""
         if pred[0] == 'cmp':
             for side in (pred[2], pred[3]):
+                if side[0] == 'call' and side[1][0] == 'g' and side[1][1] in ('numpy.max', 'numpy.amax') and side[2] \
+                        and self.kind(side[2][0], f) in ('ACC', 'ROW') and any(k == 'axis' for k, _ in side[3]):
+                    return side
                 if self.kind(side, f) in ('ACC', 'ROW', 'COL', 'ENTRY', 'ACCT'):
                     return side
                 if side[0] == 'bin' and side[1] in ('+', '-') and side[3][0] == 'c' and \
